@@ -59,7 +59,25 @@ Definition range_cds_exts (s : strand) (e : exon) (r : range) : result (Z * Z) :
   Ok (if is_plus s then (pre, suf) else (suf, pre)).
 
 (* UIntRangeSortedList.get_before(i, r, before) / get_after: positions of the bases completing the first/last codon,
-   from the same exon (local) or from the end/start of the neighbouring exon in genomic order (distal) *)
+   from the same exon (local) or from the end/start of the neighbouring exons in genomic order (distal; the while
+   loops walk over as many neighbouring exons as the extension needs) *)
+(* prevs: the preceding exons, nearest first; n bases wanted; result in ascending order *)
+Fixpoint take_before (prevs : list exon) (n : Z) : result (list Z) :=
+  if n <=? 0 then Ok [] else
+  match prevs with
+  | [] => Err AssertionError
+  | p :: ps => let k := Z.min n (x_len p) in
+               do rest <- take_before ps (n - k); Ok (rest ++ zrange (x_end p - k + 1) (x_end p + 1))
+  end.
+(* nexts: the following exons, nearest first *)
+Fixpoint take_after (nexts : list exon) (n : Z) : result (list Z) :=
+  if n <=? 0 then Ok [] else
+  match nexts with
+  | [] => Err AssertionError
+  | p :: ps => let k := Z.min n (x_len p) in
+               do rest <- take_after ps (n - k); Ok (zrange (x_start p) (x_start p + k) ++ rest)
+  end.
+
 Definition get_before (exons : list exon) (i : Z) (r : range) (before : Z) : result (list Z) :=
   if (i <? 0) || (before <? 0) then Err AssertionError else
   if before =? 0 then Ok [] else
@@ -69,10 +87,8 @@ Definition get_before (exons : list exon) (i : Z) (r : range) (before : Z) : res
       let ds := rs r - x_start e in
       if before <=? ds then Ok (zrange (rs r - before) (rs r))
       else if negb (0 <? i) then Err AssertionError
-      else match znth (i - 1) exons with
-           | None => Err IndexError
-           | Some prev => Ok (zrange (x_end prev - before + ds + 1) (x_end prev + 1) ++ zrange (x_start e) (x_start e + ds))
-           end
+      else do distal <- take_before (rev (zfirstn i exons)) (before - ds);
+           Ok (distal ++ zrange (x_start e) (x_start e + ds))
   end.
 
 Definition get_after (exons : list exon) (i : Z) (r : range) (after : Z) : result (list Z) :=
@@ -84,10 +100,8 @@ Definition get_after (exons : list exon) (i : Z) (r : range) (after : Z) : resul
       let ds := x_end e - re r in
       if after <=? ds then Ok (zrange (re r + 1) (re r + after + 1))
       else if negb (i <? zlen exons - 1) then Err AssertionError
-      else match znth (i + 1) exons with
-           | None => Err IndexError
-           | Some next => Ok ((if 0 <? ds then zrange (x_end e - ds + 1) (x_end e + 1) else []) ++ zrange (x_start next) (x_start next + after - ds))
-           end
+      else do distal <- take_after (zskipn (i + 1) exons) (after - ds);
+           Ok ((if 0 <? ds then zrange (x_end e - ds + 1) (x_end e + 1) else []) ++ distal)
   end.
 
 Record transcript := mkTr { t_strand : strand; t_exons : list exon }.   (* exons sorted by genomic start *)
